@@ -126,6 +126,11 @@ fn inject(m: &mut RecipeM, sample: u8, variant: u8, pos: u16) {
     };
     let word = |w: &str, sp: bool| StepTok { space_before: sp, tok: TokM::Word(w.into()) };
     let tok = match sample {
+        0 if variant % 4 == 3 => TokM::Timer(TimerM {
+            name: Some(["rest|proof", "nap|n"][(variant / 4) as usize % 2].into()),
+            qty: Some(QtyM { lock: false, value: ValM::Num(NumM::Int(30)), unit: Some("min".into()), blank_sep: false }),
+            braces: true,
+        }),
         0 => TokM::Comp(comp(["olive oil|oil", "wine|w", "a|b c"][variant as usize % 3], None)),
         1 => {
             let v = ["2-3", "1.5-2", "1/2-3/4", "2 - 3"][variant as usize % 4];
